@@ -6,6 +6,7 @@ import re
 from .common import *
 
 DECL = 'unsigned char a,b,c; signed char sa,sb; unsigned short s,t,u; short ss,st;'
+EX16_RE = re.compile(r'\(\*\* ([^\n]*?) \*\)\s*\nExample (listing16_\d+) : map show \(code16 \((.*?)\)\) =\s*\[(.*?)\]\.', re.S)
 EX_RE = re.compile(r'\(\*\* ([^\n]*?) \*\)\s*\nExample (listing_\d+) : map show \(template \((.*?)\)\) =\s*\[(.*?)\]\.', re.S)
 
 
@@ -16,6 +17,12 @@ def listing():
     for m in EX_RE.finditer(src):
         lines = re.findall(r'"((?:[^"]|"")*)"', m.group(4))
         out.append((m.group(2), m.group(1).strip(), m.group(3).strip(), [l.replace('""', '"') for l in lines]))
+    # the 16-bit comparison forms (Model/GenCmp16.v), same layout
+    p16 = os.path.join(COQ, 'Model', 'GenCmp16.v')
+    if os.path.exists(p16):
+        for m in EX16_RE.finditer(open(p16).read()):
+            lines = re.findall(r'"((?:[^"]|"")*)"', m.group(4))
+            out.append((m.group(2), m.group(1).strip(), m.group(3).strip(), [l.replace('""', '"') for l in lines]))
     return out
 
 
